@@ -376,6 +376,18 @@ func (root *Root) GetType(name string) Type {
 	return t
 }
 
+// getNamedType returns the type, not directive, with the name or nil.
+func (root *Root) getNamedType(name string) Type {
+	root.init()
+	return root.types.get(name)
+}
+
+// getDirective returns the directive with the name or nil.
+func (root *Root) getDirective(name string) Type {
+	root.init()
+	return root.dirs.get(name)
+}
+
 // ParseString parses an SDL string into a Doc.
 func (root *Root) ParseString(s string) error {
 	return root.ParseReader(strings.NewReader(s))
